@@ -180,3 +180,23 @@ def era_chains():
             for ys in (('2008', '2009'), ('2007', '2010')):
                 add('chain3', list(zip(pat, rs)), list(ys))
     return '\n'.join(rl), out
+
+def year_boundary():
+    """-> [(family, signature, description, text, zone)] single-era zones whose policy has one transition close to the
+    year boundary (the basic processor keys its cache on the UTC year and treats UTC Jan 1 as the previous year):
+    (6 Dec + 10 Jan) ON forms x 7 AT x 6 STDOFF x 2 orientations, exhaustive."""
+    out = []
+    for mon, days in (('Dec', ('29', '30', '31', 'lastSun', 'Sun>=25', 'Sun<=31')),
+                      ('Jan', ('1', '2', '3', '4', 'Sun>=1', 'Sun>=2', 'Sun>=3', 'Mon<=8', 'Mon<=9', 'Mon<=10'))):
+        for on in days:
+            for at in ('0:00', '0:00s', '0:00u', '2:00', '12:00u', '23:59', '24:00'):
+                for so in ('-12:00', '-8:00', '0:00', '5:45', '12:45', '14:00'):
+                    for orient in ('dst-starts', 'dst-ends'):
+                        k = len(out); z, p = 'B/y%d' % k, 'B%d' % k
+                        s1, l1, s2, l2 = ('1:00', 'D', '0', 'S') if orient == 'dst-starts' else ('0', 'S', '1:00', 'D')
+                        text = '\n'.join([
+                            'Rule\t%s\t1990\tmax\t-\t%s\t%s\t%s\t%s\t%s' % (p, mon, on, at, s1, l1),
+                            'Rule\t%s\t1990\tmax\t-\tJul\t1\t2:00\t%s\t%s' % (p, s2, l2),
+                            'Zone\t%s\t%s\t%s\tT%%sT' % (z, so, p)])
+                        out.append(('yearedge', '%s%s' % (mon, on), '%s %s %s stdoff %s %s' % (mon, on, at, so, orient), text, z))
+    return out
